@@ -314,7 +314,9 @@ func (vc *VC) evalExprQuiet(st *State, e ast.Expr) Term {
 	for k, v := range vc.counters {
 		saved[k] = v
 	}
+	vc.quiet++
 	t := vc.evalExpr(st, e)
+	vc.quiet--
 	vc.obls = vc.obls[:n]
 	vc.counters = saved
 	return t
